@@ -1,6 +1,7 @@
 import Oracle.J
 import Eru.Cluster2.Spec
 import Eru.Cluster2.Lambda
+import Eru.Cluster2.NodeDown
 /- Oracle for the cluster2 group (C14, C30, C28, C22 and the cluster-level stream of C13): runs
    the model on the case, compares with the implementation's snapshots and evaluates the
    specification predicates on the implementation's output. Not part of any model or proof. -/
@@ -201,5 +202,62 @@ def handleLambda (j : Json) : Json :=
     (Json.mkObj [("final", stToJson nodes r.1.base), ("msgs", Json.arr (r.2.map msgToJson).toArray),
                  ("agree_state", agreeSt), ("agree_msgs", agreeMsgs)])
     (vRemoved ++ vUsage ++ vExit ++ vWal ++ vClose) cls (okIds.isEmpty)
+
+/-! ### C28 -/
+namespace NDO
+open Eru.Cluster2.ND
+
+def evtOfJson (j : Json) : Evt :=
+  match jstr (jget j "e") with
+  | "heartbeat" => .heartbeat (jstr (jget j "n"))
+  | "lapse" => .lapse (jstr (jget j "n"))
+  | "create" => .create (jnat (jget j "id")) (jstr (jget j "n"))
+  | "report" => .report (jnat (jget j "id"))
+  | "stopWatcher" => .stopWatcher
+  | _ => .startWatcher
+
+def statusStr : Option WStatus → String
+  | none => "none"
+  | some ⟨true, true⟩ => "up"
+  | some ⟨false, false⟩ => "down"
+  | _ => "mixed"
+
+/-- the property read directly off the history (independent of the model's mechanism): the ids
+that must be reported down at the end — workloads recorded on a node at the moment its
+heartbeat disappeared under an active watcher, or found lapsed (non-test node) when the watcher
+started, and not reported by their agent since -/
+def obligations (nodes : List NodeRec) : List Evt → St → List Nat → List Nat
+  | [], _, ob => ob
+  | e :: rest, s, ob =>
+    let ob' := match e with
+      | .lapse n => if s.active && s.hb.contains n then ob ++ ((onNode s n).map (·.id)) else ob
+      | .startWatcher => ob ++ (nodes.filter fun nd => !nd.test && !s.hb.contains nd.name).flatMap fun nd => (onNode s nd.name).map (·.id)
+      | .report i => ob.filter (· != i)
+      | _ => ob
+    obligations nodes rest (step s e) ob'
+
+def handle (j : Json) : Json :=
+  let id := jget j "id"
+  let nodes : List NodeRec := (jarr (jget j "nodes")).map fun n => ⟨jstr (jget n "name"), jbool (jget n "test")⟩
+  -- a lapse by TTL first writes the status key with a short lease (a heartbeat), then it expires
+  let evs := (jarr (jget j "script")).flatMap fun e =>
+    if jstr (jget e "e") == "lapse" && jstr (jget e "how") == "ttl" then [.heartbeat (jstr (jget e "n")), evtOfJson e] else [evtOfJson e]
+  let s0 : St := { nodes := nodes }
+  let fin := run s0 evs
+  let implSt := jget (jget j "impl") "status"
+  let ids := fin.wls.map (·.id)
+  let modelSt := ids.map fun i => (toString i, statusStr (getStatus fin i))
+  let agree := ids.all fun i => jstr (jget implSt (toString i)) == statusStr (getStatus fin i)
+  let ob := (obligations nodes evs s0 []).eraseDups
+  let viol := (ob.filter fun i => jstr (jget implSt (toString i)) != "down").map fun i => s!"C28:workload-still-up:{i}"
+  let nlapse := (evs.filter fun e => match e with | .lapse _ => true | _ => false).length
+  let startIdx := evs.findIdx (· == .startWatcher)
+  let lapseBefore := (evs.take startIdx).any fun e => match e with | .lapse _ => true | _ => false
+  let lapseAfter := (evs.drop startIdx).any fun e => match e with | .lapse _ => true | _ => false
+  let cls := "down:" ++ (if ob.isEmpty then "none" else "marked") ++ (if lapseBefore then "+before" else "") ++
+    (if lapseAfter then "+after" else "") ++ (if nodes.any (·.test) then "+test" else "")
+  verdict id agree (Json.mkObj (modelSt.map fun p => (p.1, Json.str p.2))) viol cls (ob.isEmpty || nlapse == 0 && !lapseBefore && ob.isEmpty)
+
+end NDO
 
 end Oracle.Cluster2
